@@ -27,6 +27,7 @@ type Config struct {
 	Witnesses     int  // number of path witnesses to produce for the native cross-check
 	IntMode       bool // mathematical integers with overflow obligations
 	Shard, Shards int
+	SubShards     int // each ShardChoice residue is further split by decision prefix into this many workers
 	Deadline      time.Time
 	Params        map[string]int
 	Verbose       bool
@@ -93,6 +94,8 @@ type Explorer struct {
 	nowCount   int
 	lastNow    *Term
 	panicTrace string
+	panicFn    string
+	panicText  string
 	curFrame   *frame
 	ForkSites  map[string]int
 	InitTime   time.Duration
@@ -179,6 +182,7 @@ func (e *Explorer) beginPath(prefix []int) {
 	e.nowCount = 0
 	e.lastNow = nil
 	e.panicTrace = ""
+	e.panicFn, e.panicText = "", ""
 	e.decimals = map[int]int{}
 	e.strLenUsed = false
 	e.sol.Push()
